@@ -70,7 +70,7 @@ theorem inShape_one {i m : Nat} : InShape [i] [m] ↔ i < m := by simp [InShape]
 theorem inShape_two {i j m n : Nat} : InShape [i, j] [m, n] ↔ i < m ∧ j < n := by simp [InShape]
 
 /-- an index into `s ++ t` splits -/
-theorem inShape_append_split {d s t : List Nat} (h : InShape d (s ++ t)) :
+theorem mb_inShape_append_split {d s t : List Nat} (h : InShape d (s ++ t)) :
     ∃ p q, d = p ++ q ∧ InShape p s ∧ InShape q t := by
   have hl := h.length_eq
   refine ⟨d.take s.length, d.drop s.length, (List.take_append_drop _ _).symm, ?_⟩
@@ -80,7 +80,7 @@ theorem inShape_append_split {d s t : List Nat} (h : InShape d (s ++ t)) :
 
 theorem inShape_append_two {d s : List Nat} {m n : Nat} (h : InShape d (s ++ [m, n])) :
     ∃ p i j, d = p ++ [i, j] ∧ InShape p s ∧ i < m ∧ j < n := by
-  obtain ⟨p, q, rfl, hp, hq⟩ := inShape_append_split h
+  obtain ⟨p, q, rfl, hp, hq⟩ := mb_inShape_append_split h
   match q, hq with
   | [i, j], hq => exact ⟨p, i, j, rfl, hp, (inShape_two.1 hq).1, (inShape_two.1 hq).2⟩
   | [], hq => simp [InShape] at hq
@@ -89,7 +89,7 @@ theorem inShape_append_two {d s : List Nat} {m n : Nat} (h : InShape d (s ++ [m,
 
 theorem inShape_append_one {d s : List Nat} {m : Nat} (h : InShape d (s ++ [m])) :
     ∃ p i, d = p ++ [i] ∧ InShape p s ∧ i < m := by
-  obtain ⟨p, q, rfl, hp, hq⟩ := inShape_append_split h
+  obtain ⟨p, q, rfl, hp, hq⟩ := mb_inShape_append_split h
   match q, hq with
   | [i], hq => exact ⟨p, i, rfl, hp, inShape_one.1 hq⟩
   | [], hq => simp [InShape] at hq
@@ -111,9 +111,9 @@ theorem bc1_one_left {x : Nat} (h : 0 < x) : bc1 1 x = some x := by
 theorem bc1_comm (x y : Nat) : bc1 x y = bc1 y x := by
   simp only [bc1, Nat.max_comm, eq_comm, or_comm]
 
-theorem bcRev_nil_right (a : List Nat) : bcRev a [] = some a := by cases a <;> rfl
+theorem mb_bcRev_nil_right (a : List Nat) : bcRev a [] = some a := by cases a <;> rfl
 
-theorem bcRev_comm (a b : List Nat) : bcRev a b = bcRev b a := by
+theorem mb_bcRev_comm (a b : List Nat) : bcRev a b = bcRev b a := by
   induction a generalizing b with
   | nil => cases b <;> rfl
   | cons x xs ih =>
@@ -122,12 +122,12 @@ theorem bcRev_comm (a b : List Nat) : bcRev a b = bcRev b a := by
     | cons y ys => simp only [bcRev, bc1_comm x y, ih ys]
 
 theorem broadcastShape_comm (a b : Shape) : broadcastShape a b = broadcastShape b a := by
-  simp [broadcastShape, bcRev_comm]
+  simp [broadcastShape, mb_bcRev_comm]
 
 @[simp] theorem broadcastShape_nil_left (b : Shape) : broadcastShape [] b = some b := by
   simp [broadcastShape, bcRev]
 @[simp] theorem broadcastShape_nil_right (a : Shape) : broadcastShape a [] = some a := by
-  simp [broadcastShape, bcRev_nil_right]
+  simp [broadcastShape, mb_bcRev_nil_right]
 
 theorem broadcastShape_append_one (a b : Shape) (x y : Nat) :
     broadcastShape (a ++ [x]) (b ++ [y]) =
